@@ -1,6 +1,123 @@
 """C08 extractors: enum http_header_e ids of the known header names and the "unset" /
-initial values request_reset() writes (http_kv.h, request.h, buffer.h)."""
+initial values request_reset() writes (http_kv.h, request.h, buffer.h); the members of
+struct request_st and struct connection (clang AST); and, per source file that stores something
+in r->plugin_ctx[], whether it registers a handle_request_reset hook that clears the slot."""
+import json, os, re, subprocess
+from . import common as C
 from .extract import extractor, ExtractError, c_dump
+
+
+def struct_members(names):
+    """{struct name: [member, ...]} from the clang AST; members of anonymous inline structs /
+    unions are listed with their path (x.h1.te_chunked), members of named types are not opened"""
+    d = C.scratch_dir("ex")
+    src = os.path.join(d, "members.c")
+    with open(src, "w") as f:
+        f.write('#include "first.h"\n#include "base.h"\n#include "request.h"\n')
+    flags = [x for x in C.cflags(san=False, opt="-O0") if x[:2] in ("-D", "-I", "-s")]
+    out = {}
+    for name in names:
+        r = subprocess.run(["clang", "-fsyntax-only", "-w", "-Xclang", "-ast-dump=json", "-Xclang",
+                            "-ast-dump-filter=" + name] + flags + [src],
+                           stdout=subprocess.PIPE, stderr=subprocess.PIPE, text=True, timeout=300)
+        if r.returncode != 0:
+            raise ExtractError("clang AST dump failed: " + r.stderr[-800:])
+        dec, txt, i, found = json.JSONDecoder(), r.stdout, 0, None
+        while True:
+            i = txt.find("{", i)
+            if i < 0:
+                break
+            o, i = dec.raw_decode(txt, i)
+            if o.get("kind") == "RecordDecl" and o.get("completeDefinition") and o.get("name") == name:
+                found = o
+        if found is None:
+            raise ExtractError("struct %s not found in the AST" % name)
+
+        def members(rec, prefix=""):
+            res, anon = [], None
+            for n in rec.get("inner", []):
+                if n["kind"] == "RecordDecl" and "name" not in n:
+                    anon = n
+                elif n["kind"] == "FieldDecl":
+                    qt = n["type"]["qualType"]
+                    if anon is not None and ("unnamed" in qt or "anonymous" in qt):
+                        res += members(anon, prefix + n["name"] + ".")
+                    else:
+                        res.append(prefix + n["name"])
+                    anon = None
+            return res
+        out[name] = members(found)
+        if len(out[name]) < 20:
+            raise ExtractError("struct %s: implausibly few members" % name)
+    return out
+
+
+def _functions(text):
+    """{name: body} of the function definitions of a C file (comments and literals blanked,
+    brace matching; `MACRO(name) {` definitions are named after their argument)"""
+    text = re.sub(r"/\*.*?\*/|//[^\n]*|\"(?:\\.|[^\"\\\n])*\"|'(?:\\.|[^'\\\n])*'", " ", text, flags=re.S)
+    pat = re.compile(r"([A-Za-z_][A-Za-z0-9_]*)\s*\(((?:[^;{}()]|\([^()]*\))*)\)\s*\{")
+    fns, pos = {}, 0
+    while True:
+        m = pat.search(text, pos)
+        if not m:
+            break
+        i, depth = m.end(), 1
+        while i < len(text) and depth:
+            depth += {"{": 1, "}": -1}.get(text[i], 0)
+            i += 1
+        name, args = m.group(1), m.group(2).strip()
+        if name.isupper() and re.fullmatch(r"[A-Za-z_][A-Za-z0-9_]*", args):
+            name = args
+        if name not in ("if", "while", "for", "switch"):
+            fns[name] = text[m.end():i]
+            pos = i
+        else:
+            pos = m.end()
+    return fns
+
+
+SLOT_WRITE = re.compile(r"\br->plugin_ctx\s*\[[^\]]*\]\s*=(?!=)\s*(?!NULL\b)")
+SLOT_ALIAS = re.compile(r"\(\s*r->plugin_ctx\s*\+|&\s*r->plugin_ctx\s*\[")
+SLOT_CLEAR = re.compile(r"\br->plugin_ctx\s*\[[^\]]*\]\s*=\s*NULL\b|\*\s*[a-z_]+\s*=\s*(NULL|0)\s*;")
+
+
+def slot_modules():
+    """[(file, registers a handle_request_reset hook, that hook reaches code clearing the slot)]
+    for every src/*.c that stores into r->plugin_ctx[]; gw_backend.c is the shared library of
+    the gateway modules: its hook gw_handle_request_reset is what those modules register"""
+    srcdir = os.path.join(C.REPO, "src")
+    texts = {}
+    for n in sorted(os.listdir(srcdir)):
+        if n.endswith(".c"):
+            texts[n] = open(os.path.join(srcdir, n), errors="replace").read()
+    rows = []
+    for n, t in texts.items():
+        if n == "reqpool.c" or not (SLOT_WRITE.search(t) or SLOT_ALIAS.search(t)):
+            continue
+        fns = _functions(t)
+        if n == "gw_backend.c":
+            users = [m for m, u in texts.items() if re.search(r"handle_request_reset\s*=\s*gw_handle_request_reset\b", u)]
+            hooks = ["gw_handle_request_reset"] if users else []
+        else:
+            hooks = re.findall(r"handle_request_reset\s*=\s*([A-Za-z_0-9]+)\s*;", t)
+        clears = False
+        for h in hooks:
+            seen, todo = set(), [h]
+            for _ in range(3):                      # the hook and what it calls, two levels deep
+                nxt = []
+                for f in todo:
+                    if f in seen or f not in fns:
+                        continue
+                    seen.add(f)
+                    if SLOT_CLEAR.search(fns[f]):
+                        clears = True
+                    nxt += [c for c in re.findall(r"\b([A-Za-z_][A-Za-z0-9_]*)\s*\(", fns[f]) if c in fns]
+                todo = nxt
+        rows.append((n, bool(hooks), clears))
+    if len(rows) < 8:
+        raise ExtractError("r->plugin_ctx[] users: shape changed")
+    return rows
 
 
 @extractor("ReqConst")
@@ -36,5 +153,14 @@ int main(void){
              "conStateConnect"]
     for n, v in zip(names, consts):
         s += "def %s : Int := %d\n" % (n, v)
+    mem = struct_members(["request_st", "connection"])
+    s += "\n/-- request.h: members of struct request_st (clang AST) -/\n"
+    s += "def requestStMembers : List String := [" + ", ".join('"%s"' % m for m in mem["request_st"]) + "]\n"
+    s += "\n/-- base.h: members of struct connection (clang AST) -/\n"
+    s += "def connectionMembers : List String := [" + ", ".join('"%s"' % m for m in mem["connection"]) + "]\n"
+    s += "\n/-- src/*.c that store into r->plugin_ctx[]: (file, registers a handle_request_reset hook,\n"
+    s += "    the hook reaches an assignment clearing the slot) -/\n"
+    s += "def slotModules : List (String × Bool × Bool) := [" + ", ".join(
+        '("%s", %s, %s)' % (n, str(a).lower(), str(b).lower()) for n, a, b in slot_modules()) + "]\n"
     s += "\nend LtVerif.Extracted\n"
     return s
